@@ -40,6 +40,7 @@ struct Settings {
   bool solo_pass = false;    // executing the solo-replay pass: environmental faults are stripped
   bool sanitizer = false;
   long op_cpu_seconds = 20;  // per-operation CPU watchdog (process CPU time; x3 under sanitizers)
+  bool extra_randomness = false; // the build draws extra bytes from the random source while signing (ZKB++)
   std::string own_prefix;   // e.g. "C05.": a check reports only clauses of its own property (others are noted)
   unsigned enabled_mask = 0x1FFE; // parameter sets the configuration under test is expected to enable (bit id)
 };
@@ -78,6 +79,8 @@ struct TaskCtx {
 };
 
 // ---- environment handling
+void default_entropy(SimEnv* e); // WITH_EXTRA_RANDOMNESS builds: every call finds the same fixed entropy stream
+bytes extra_randomness_bytes(const model::Params& p); // what such a build absorbs while signing (empty otherwise)
 unsigned caps_for_node(const std::string& node); // "avx2" -> all, "sse2" -> no AVX2/BMI2
 void configure_env(TaskCtx& t, const Case& c);    // reset env, apply the case's environmental faults
 template <class F> auto libcall(TaskCtx& t, F&& f) -> decltype(f()) {
@@ -109,6 +112,7 @@ template <class F> auto cleancall(F&& f) -> decltype(f()) {
   e.rng_passthrough = 0;
   if (!G.node_override.empty())
     e.caps_mask = caps_for_node(G.node_override);
+  default_entropy(&e);
   sim_env_set(&e);
   auto r = f();
   sim_env_set(saved);
@@ -119,6 +123,7 @@ template <class F> auto cleancall_node(const std::string& node, F&& f) -> declty
   SimEnv e;
   sim_env_reset(&e, -1);
   e.caps_mask = caps_for_node(node);
+  default_entropy(&e);
   sim_env_set(&e);
   auto r = f();
   sim_env_set(saved);
